@@ -62,7 +62,15 @@ def histories(tier, seed, res):
             uniq.append(h[1])
     # keep the informative ones: at least one optimize; prefer histories with queued requests before an optimize
     rich = [h for h in uniq if sum(1 for op in h if op[0] == "opt") >= 1]
-    return rich
+    # directed histories: batches of queued requests over three variables with pairwise different bounds, in every order
+    rb = vlib.run_tlc("Gen_WrapperBatch", "Gen_WrapperBatch.cfg", workers=1, timeout=600)
+    hb = [h[1] for h in vlib.extract_tagged(rb["stdout"], tags=("HISTORY",))]
+    if not hb:
+        raise vlib.Machinery("no batch histories generated: " + rb["stdout"][-1500:])
+    hb.sort(key=str)
+    res.count_class("batch_histories", len(hb))
+    import random as _r
+    return rich, (_r.Random(seed).sample(hb, 200) if tier == "quick" else hb)   # (an even spread would alias with the product order)
 
 
 def gadget_instances(tier):
@@ -94,9 +102,10 @@ def run(tier, seed):
     mc(res, "Wrapper", "MC_Wrapper.cfg", {"what": "queued updates invisible until Optimize; LB request leaves UB alone"})
     apalache_binary_gadget(res)
     # histories
-    hs = histories(tier, seed, res)
+    hs, hb = histories(tier, seed, res)
     if tier == "quick":
         hs = C.spread(hs, 1500)
+    hs = hs + hb
     insts = [{"id": i + 1, "ops": h} for i, h in enumerate(hs)]
     gad = gadget_instances(tier)
     for j, g in enumerate(gad):
